@@ -16,10 +16,10 @@ from vlib.mir import dump_mir, Mir, Exec
 from vlib.native import Native, Replay
 from props import c06, c15
 
-ENC_RULES = [(r"enc_into$", r"^for _ in 1\.\.d\b", 17), (r"enc_into$", r"^while b1 >= p", 4), (r"enc_into$", r"^for _ in 1\.\.d1\b", 4),
+ENC_RULES = [(r"enc_in(to|dices)", r"^for _ in 1\.\.d\b", 17), (r"enc_in(to|dices)", r"^while b1 >= p", 4), (r"enc_in(to|dices)", r"^for _ in 1\.\.d1\b", 4),
              (r"verif_c04::", r"^while i < L", 29), (r"verif_c04::", r"^while j < d \{", 17), (r"verif_c04::", r"^while c1 >= p", 4),
              (r"verif_c04::", r"^while j < d1", 4)]
-ENC_HARNESSES = ["c04_enc_into_selects_rfc_symbols", "c04_enc_into_through_reorder_map"]
+ENC_HARNESSES = ["c04_enc_into_selects_rfc_symbols", "c04_enc_into_through_reorder_map", "c04_enc_indices_selects_rfc_symbols"]
 
 
 def kani_enc_unit(ctx, prefix="c04"):
@@ -36,7 +36,7 @@ def kani_enc_unit(ctx, prefix="c04"):
         descs += desc
     ctx.report.coverage["kani_unwindset_enc_into"] = sorted(set(descs))
     run_harnesses(ctx, ov, ENC_HARNESSES, timeout_s=1500, mem_gb=16, replay_kind="enc_into", prefix=prefix + "/",
-                  cbmc_args=(["--unwindset", ",".join(sorted(set(items)))] if items else None), jobs=2)
+                  cbmc_args=(["--unwindset", ",".join(sorted(set(items)))] if items else None), jobs=3)
 
 
 def packet_differential(ctx, native, cases, prefix="c04"):
@@ -123,9 +123,36 @@ def run(ctx):
             esis = [K, K + 1, (1 << 24) - 1, 1 << 23] + [rnd.randrange(K, 1 << 24) for _ in range(3)]
             cases.append((K, T, esis))
     packet_differential(ctx, native, cases)
-    # rows above the certificate bound: concrete system + repair-packet check of the real encoder (every 2nd row up to 1200, all in thorough)
+    # multi-block objects: repair packets of every block (incl. neighbouring block sizes with different K') vs the transcription
+    from props.c05 import rfc_layout
+    t0 = time.time()
+    n = 0
+    for F, T, Z in ((168, 8, 2), (100, 4, 2), (111, 3, 3), (212, 4, 2), (37, 1, 2)):
+        out = native.run(["object-packets", F, T, Z, 1, 1, 3], release=True)
+        if not out.startswith("object"):
+            rep.violated("c04/object-packets/F=%d,T=%d,Z=%d" % (F, T, Z), "object packets", "Encoder::new failed: %s" % out[:150], {"kind": "object-packets", "args": [F, T, Z, 1, 1, 3]}, 0.0, "native")
+            continue
+        data = bytes(((i * 53 + 11) ^ (i >> 3)) & 0xFF for i in range(F))
+        blocks = {}
+        for b, m, sym in rfc_layout(F, T, Z, 1, 1, data):
+            blocks.setdefault(b, []).append(sym)
+        for b, e, h in [x.split(":") for x in out.splitlines()[0].split("object ")[1].split(",")]:
+            b, e = int(b), int(e)
+            K = len(blocks[b])
+            p = rfc.Params(K)
+            if "C" not in blocks.setdefault(("C", b), {}):
+                blocks[("C", b)]["C"] = rfc.solve_intermediate(p, blocks[b], T)
+            want = rfc.enc_symbol(p, blocks[("C", b)]["C"], e if e < K else e + p.Kp - K, T).hex()
+            n += 1
+            if h != want:
+                rep.violated("c04/object-packets/F=%d,T=%d,Z=%d/block=%d,esi=%d" % (F, T, Z, b, e), "object packet",
+                             "packet (%d,%d) of the %d-byte object (T=%d, Z=%d; block of K=%d symbols) is %s, the RFC symbol is %s" % (b, e, F, T, Z, K, h, want),
+                             {"kind": "object-packets", "args": [F, T, Z, 1, 1, 3]}, 0.0, "native")
+                break
+    rep.held("c04/object-packets/multi-block-objects-vs-transcription", "%d packets (source and repair) of 5 multi-block objects" % n, time.time() - t0, "native/concrete", packets=n)
+    # rows above the certificate bound: concrete system + repair-packet check of the real encoder (every row up to 1200, all in thorough)
     big = [r[0] for r in rfc.TABLE2 if bound < r[0] <= (1200 if not thorough else 3000)]
-    c06.concrete_large_rows(ctx, native, big if thorough else big[::2], "c04", thorough)
+    c06.concrete_large_rows(ctx, native, big, "c04", thorough)
     kt.join()
 
 
